@@ -368,6 +368,10 @@ func CheckFlow(r *Run) []Finding {
 		}
 	}
 
+	if e.GateTimedOut.Load() {
+		add("C11", "predicate unit %d did not run while task unit %d, which provides only an input of the predicated TASK (not of the predicate), was still running: the predicate is not evaluated as soon as its own inputs are available", scn.GateFor-1, scn.GateU-1)
+	}
+
 	// --- concurrency bound ------------------------------------------------------------
 	if lim := concLimit(s, scn); lim > 0 && int(e.MaxInflight.Load()) > lim {
 		add("C03", "%d user functions of one flow were executing at once; the limit is %d", e.MaxInflight.Load(), lim)
@@ -690,6 +694,75 @@ func Differential(base, mod *Run) []Finding {
 	for k := range mod.Env.Spec.Results {
 		if got, have := mod.Env.Results[k]; have && got != mod.Env.SentinelTag(k) {
 			add("modifier-mode code failed but modified Results target %d", k)
+		}
+	}
+	return out
+}
+
+// GateCandidates lists (gated provider unit, predicate unit) pairs usable for
+// the C11 gate scenario: the provider q produces an input of a predicated
+// task t that is not an input of t's predicate, and none of the predicate's
+// inputs depends (transitively) on q.
+func GateCandidates(s *Spec) [][2]int {
+	provider := map[string]int{} // type -> task index
+	for i, t := range s.Tasks {
+		for _, o := range t.Out {
+			provider[o.Key()] = i
+		}
+	}
+	// ancestors[i] = set of task indices task i transitively depends on (incl. via predicates)
+	anc := make([]map[int]bool, len(s.Tasks))
+	var walk func(i int) map[int]bool
+	walk = func(i int) map[int]bool {
+		if anc[i] != nil {
+			return anc[i]
+		}
+		m := map[int]bool{}
+		anc[i] = m
+		ins := append([]TypeRef{}, s.Tasks[i].In...)
+		if s.Tasks[i].Pred != nil {
+			ins = append(ins, s.Tasks[i].Pred.In...)
+		}
+		for _, in := range ins {
+			if p, ok := provider[in.Key()]; ok && p != i {
+				m[p] = true
+				for k := range walk(p) {
+					m[k] = true
+				}
+			}
+		}
+		return m
+	}
+	var out [][2]int
+	for i, t := range s.Tasks {
+		if t.Pred == nil {
+			continue
+		}
+		predIn := map[string]bool{}
+		for _, in := range t.Pred.In {
+			predIn[in.Key()] = true
+		}
+		for _, in := range t.In {
+			if predIn[in.Key()] {
+				continue
+			}
+			q, ok := provider[in.Key()]
+			if !ok || q == i {
+				continue
+			}
+			bad := false
+			for _, pin := range t.Pred.In {
+				if pp, ok := provider[pin.Key()]; ok && (pp == q || walk(pp)[q]) {
+					bad = true
+				}
+			}
+			// the gated provider itself must not wait for the predicated task
+			if walk(q)[i] {
+				bad = true
+			}
+			if !bad {
+				out = append(out, [2]int{s.Tasks[q].Unit, t.Pred.Unit})
+			}
 		}
 	}
 	return out
